@@ -11,6 +11,7 @@ CFG = {
     "theorems": [
         "Swat4.C13.facts_ok",
         "Swat4.C13.outcome_table",
+        "Swat4.C13.specWord_is_model",
         "Swat4.C13.retry_keeps_listing",
         "Swat4.C13.final_failure_marks",
         "Swat4.C13.success_marks",
